@@ -1990,7 +1990,6 @@ package exec
 
 //@ extern fmt.Sprintf(format, a) (r)
 //@   pure
-//@   uses namefn
 //@   ensures format == "{%s}%s" && len(a) == 2 ==> r == bracedName(unboxStr(a[0]), unboxStr(a[1]))
 
 //@ func getName(nodeSet, ok, nameType) (r, err)
